@@ -45,6 +45,7 @@ def plan_for(prop, tier):
             stages=[
                 dict(kind="worker", name="asan", variant="asan", part="", runs=100000 if q else 2500000, block=1000, hash_mod=50, key_mod=1 if q else 16),
                 dict(kind="worker", name="tsan", variant="tsan", part="", runs=100000 if q else 2000000, block=1000, hash_mod=50, key_mod=1 if q else 16),
+                dict(kind="worker", name="tsan-weak-hash", variant="tsan", part="", runs=20000 if q else 400000, block=1000, hash_mod=50, key_mod=1 if q else 16, extra=["--weak-hash"]),
                 dict(kind="worker", name="cold-start-tsan", variant="tsan", part="cold", runs=1500 if q else 30000, block=1, hash_mod=25, key_mod=1, extra=["--cold"], recheck_block=1),
                 dict(kind="worker", name="cold-start-asan", variant="asan", part="cold", runs=500 if q else 10000, block=1, hash_mod=25, key_mod=1, extra=["--cold"], recheck_block=1),
                 dict(kind="worker", name="tmpl3-seeded", variant="gzero", part="tmpl3", runs=4000 if q else 40000, block=500, hash_mod=0, key_mod=1, template="k3"),
@@ -62,6 +63,7 @@ def plan_for(prop, tier):
                  "tasks had overlapping loads of one name or a mutex was contended; distinct = distinct (schedule trace, script) hashes among those",
             stages=[
                 dict(kind="worker", name="asan", variant="asan", part="", runs=120000 if q else 3000000, block=1000, hash_mod=50, key_mod=1 if q else 16),
+                dict(kind="worker", name="asan-weak-hash", variant="asan", part="", runs=20000 if q else 500000, block=1000, hash_mod=50, key_mod=1 if q else 16, extra=["--weak-hash"]),
                 dict(kind="worker", name="tmpl3f-seeded", variant="gzero", part="tmpl3f", runs=4000 if q else 40000, block=500, hash_mod=0, key_mod=1, template="k3f"),
                 dict(kind="enumerate", name="k3-factory-yields-exhaustive", variant="asan", k=3, names=1, fy=True, template="k3f"),
                 dict(kind="enumerate", name="k3-two-names-exhaustive", variant="asan", k=3, names=2, fy=True),
@@ -82,6 +84,7 @@ def plan_for(prop, tier):
                 dict(kind="worker", name="enum-hint-states", variant="asan", part="enum", runs=-1, block=100, hash_mod=97, key_mod=1),
                 dict(kind="worker", name="random-histories", variant="asan", part="random", runs=6000 if q else 150000, block=100, hash_mod=50, key_mod=1),
                 dict(kind="worker", name="cacheB", variant="asan", part="", runs=80000 if q else 2000000, block=1000, hash_mod=50, key_mod=1 if q else 16),
+                dict(kind="worker", name="cacheB-weak-hash", variant="asan", part="", runs=20000 if q else 500000, block=1000, hash_mod=50, key_mod=1 if q else 16, extra=["--weak-hash"]),
                 dict(kind="worker", name="hints-multitask-tsan", variant="tsan", part="hints", runs=60000 if q else 1500000, block=1000, hash_mod=50, key_mod=1 if q else 16),
             ])
     if prop == "C19":
